@@ -16,7 +16,7 @@ CFG = dict(
     technique="Lean 4 proof (inductive invariants over event lists; regression / refutation witnesses by `decide`) + regenerated constants / literal-operator lists / call-site and "
               "statement-presence facts + differential run of the real handlers against the model + implementation-side oracle",
     lean=["Ssv.Props.C16"],
-    engines=[dict(harness="duties", driver="m_duties", case_delim="reset", n_quick=1000, n_thorough=12000, thorough_seeds=4, n_search=6000, search_seeds=4)],
+    engines=[dict(harness="duties", driver="m_duties", case_delim="reset", n_quick=800, n_thorough=8000, thorough_seeds=4, n_search=6000, search_seeds=4)],
     rule="seeded generator: handler kind (att 45% / prop 20% / sync 35%), network (real 32/256 near epoch and sync-period boundaries, or small spe in {4,6,8,16} x epp in {2,3,4,8}), "
          "40-160 ticks per case with skipped slots, clock skew (-1, +1, +spe+2), reorg(previous|current|both) and indices-change notices before/after ticks (boosted after the last "
          "slot of an epoch; 1% handled one tick late; 1% carrying a slot later than the next tick), scripted registries (own/foreign, liquidated, attesting / pending-queued / exited / slashed / unknown / no metadata, random order, changing before indices-change notices), per-fetch beacon answer ok (assignments change at every re-fetch: validators move "
